@@ -5,6 +5,8 @@
 -/
 import ALV.Lemmas.C19
 import ALV.Lemmas.C19Shapes
+import ALV.Lemmas.C19Table
+import ALV.Lemmas.C19Real
 import Mathlib.Tactic.NormNum
 import ALV.Common.Audit
 
@@ -155,6 +157,56 @@ example : (0 : Rat) < 5/2 ∧ durLen (5/2 : Rat) + durLen (2 : Rat) + durLen (3 
   decide +kernel
 example : impulse (some (7/2 : Rat)) "one" "zero" 9 = ["one", "zero", "zero", "zero"] := by decide +kernel
 example : attack (2 : Rat) 2 (.strm [1/2, 7, 8]) 9 = .ok [0, 1/2, 1, 3/4, 7, 8] := by decide +kernel
+
+/-! ## oscillators on top of modulo_counter -/
+
+/-- **C19.table.1** a `TableLookup` oscillator never indexes outside its table and its sample
+`k` is the cyclic linear interpolation of the table at the *unreduced* position
+`c·phase_k + Σ_{i<k} c·freq_i`, `c = len / (cycles·2π)` — numbers or streams, any path of the
+underlying counter, every `n`. -/
+theorem table_lookup_eq_spec (tbl : List K) (h : tbl ≠ []) (den : K) (freq phase : Arg K) (n : Nat) :
+    tableCall tbl den freq phase n = (tableSpec tbl den freq phase n).map some :=
+  tableCall_eq tbl h den freq phase n
+
+/-- **C19.table.2** the interpolation is cyclic: whole table lengths do not matter. -/
+theorem interp_cyclic (tbl : List K) (x : K) (z : ℤ) :
+    interpCyc tbl (x + z * ((tbl.length : ℤ) : K)) = interpCyc tbl x :=
+  interpCyc_add_int_mul tbl x z
+
+/-- **C19.table.3** `TableLookup.__getitem__` is the cyclic linear interpolation at every
+non-negative and at every integer position.  (For a negative non-integer position the code
+truncates toward zero instead of flooring — defect D15, see the `example` below.) -/
+theorem table_getitem_eq_spec (tbl : List K) (h : tbl ≠ []) (idx : K)
+    (hidx : 0 ≤ idx ∨ idx = ((⌊idx⌋ : ℤ) : K)) :
+    tableGetItem tbl idx = some (interpCyc tbl idx) :=
+  tableGetItem_eq tbl h idx hidx
+
+/-- **C19.sin.1** `sinusoid(freq, phase)` sample `k` is `sin(phase_k + Σ_{i<k} freq_i)`: the
+reduction modulo `2π` inside the counter is invisible (over ℝ, for every path and every `n`). -/
+theorem sinusoid_eq_spec (freq phase : Arg ℝ) (n : Nat) :
+    sinusoid Real.sin (2 * Real.pi) freq phase n = sinusoidSpec Real.sin freq phase n :=
+  sinusoid_real freq phase n
+
+/-- **C19.sin.2** for numbers: `sin(phase + k·freq)`. -/
+theorem sinusoid_numbers (f p : ℝ) (n : Nat) :
+    sinusoid Real.sin (2 * Real.pi) (.num f) (.num p) n
+      = (List.range n).map fun (k : Nat) => Real.sin (p + (((k : Nat) : ℤ) : ℝ) * f) := by
+  rw [sinusoid_real, sinusoidSpec_numbers]
+
+/-- **C19.ks.1** `karplus_strong`: the generated filter loop of the linearised comb (shift
+register of `⌈delay⌉` cells, zero input) is the recursion
+`y[k] = alpha·((1-w)·y[k-D] + w·y[k-D-1])` started on the (left zero-padded) initial memory. -/
+theorem karplus_eq_spec (alpha delay : K) (h1 : 1 ≤ delay) (memory : List K) (n : Nat) :
+    karplus alpha delay memory n = karplusSpec alpha delay memory n :=
+  karplus_eq alpha delay h1 memory n
+
+example : tableCall [(0 : Rat), 10, 20, 30] 1 (.num (3/8)) (.num (1/2)) 8
+    = [20, 15, 10, 25, 0, 15, 30, 5].map some := by decide +kernel
+example : tableGetItem [(0 : Rat), 10, 20, 30] (7/2) = some 15 := by decide +kernel
+-- D15: a negative fractional index is not interpolated by the code
+example : tableGetItem [(0 : Rat), 10, 20, 30] (-1/2) = some 0 ∧ interpCyc [(0 : Rat), 10, 20, 30] (-1/2) = 15 := by
+  decide +kernel
+example : karplus (1 : Rat) (9/4) [1, 2, 3] 6 = [9/4, 5/4, 31/16, 3/2, 113/64, 103/64] := by decide +kernel
 
 end ALV.Props.C19
 
